@@ -1444,6 +1444,7 @@ Theorem C01_ack_packet c k dup qos retain topic payload pid props s s' out :
   exists code, filter is_send out = ack_of c qos pid code.
 Proof.
   unfold handle_packet. destruct (has_wild topic); [discriminate|].
+  match goal with |- context [if ?b then HErrRead s (Some 148) else _] => destruct b end; [discriminate|].
   match goal with |- context [if ?b then HErrRead s (Some 130) else _] => destruct b end; [discriminate|].
   destruct ((k_v k =? 5) && (0 <? qos) && (k_quota k =? 0)); [discriminate|].
   apply C01_ack_l.
@@ -1851,6 +1852,7 @@ Theorem C01_ack_step c k dup qos retain topic payload pid props s s' out :
 Proof.
   intros Hk Hp H. destruct (C01_ack_event _ _ _ _ _ _ _ _ _ _ _ _ Hk Hp H) as [Es _].
   unfold handle_packet in H. destruct (has_wild topic); [discriminate|].
+  match type of H with context [if ?b then HErrRead s (Some 148) else _] => destruct b end; [discriminate|].
   match type of H with context [if ?b then HErrRead s (Some 130) else _] => destruct b end; [discriminate|].
   destruct ((k_v k =? 5) && (0 <? qos) && (k_quota k =? 0)); [discriminate|].
   destruct (handle_publish_ok _ _ _ _ _ _ _ _ _ _ _ _ H) as (o & code & -> & Ho).
